@@ -9,6 +9,7 @@ import (
 	"go/token"
 	gotypes "go/types"
 	"path/filepath"
+	"reflect"
 	"regexp"
 	"sort"
 	"strings"
@@ -717,6 +718,7 @@ func genC18(ctx *fw.Ctx) []fw.Case {
 		cases = append(cases, fw.Case{ID: fmt.Sprintf("numeric-forms/%d", b), Run: func(r *fw.Rec) { c18Numeric(r, b, 16) }})
 	}
 	cases = append(cases, fw.Case{ID: "ordering-pairs/cmpxchg", Run: c18CmpXchgPairs})
+	cases = append(cases, fw.Case{ID: "flagset/FastMathFlag", Run: c18FastMathSubsets})
 	for _, k := range []string{"global", "global-declaration", "declaration", "definition", "alias"} {
 		k := k
 		cases = append(cases, fw.Case{ID: "header-combinations/" + k, Run: func(r *fw.Rec) { c18HeaderCombos(r, k) }})
@@ -1482,4 +1484,106 @@ func c18CmpXchgPairs(r *fw.Rec) {
 			}
 		}
 	}
+}
+
+// c18FastMathSubsets: every subset of the eight fast-math flags on every
+// instruction kind that carries them is built through the API, printed and
+// parsed back: the flags read back must be the set that was built (`fast` is a
+// member of its own in this library, not a shorthand the printer may introduce).
+func c18FastMathSubsets(r *fw.Rec) {
+	all := []enum.FastMathFlag{enum.FastMathFlagAFn, enum.FastMathFlagARcp, enum.FastMathFlagContract, enum.FastMathFlagFast, enum.FastMathFlagNInf, enum.FastMathFlagNNaN, enum.FastMathFlagNSZ, enum.FastMathFlagReassoc}
+	kinds := []string{"fneg", "fadd", "fsub", "fmul", "fdiv", "frem", "fcmp", "phi", "select", "call"}
+	for sub := 0; sub < 256; sub++ {
+		var flags []enum.FastMathFlag
+		for i, f := range all {
+			if sub&(1<<uint(i)) != 0 {
+				flags = append(flags, f)
+			}
+		}
+		// all kinds for the full sets and a few others, one kind (by rotation) for the rest
+		ks := []string{kinds[sub%len(kinds)]}
+		if sub == 255 || sub == 255&^8 || sub == 8 || sub == 0 || sub == 1 {
+			ks = kinds
+		}
+		for _, kind := range ks {
+			m := ir.NewModule()
+			ext := m.NewFunc("ext", types.Float, ir.NewParam("a", types.Float))
+			f := m.NewFunc("f", types.Void, ir.NewParam("x", types.Float), ir.NewParam("y", types.Float), ir.NewParam("c", types.I1))
+			b := f.NewBlock("entry")
+			x, y, c := f.Params[0], f.Params[1], f.Params[2]
+			switch kind {
+			case "fneg":
+				b.NewFNeg(x).FastMathFlags = flags
+			case "fadd":
+				b.NewFAdd(x, y).FastMathFlags = flags
+			case "fsub":
+				b.NewFSub(x, y).FastMathFlags = flags
+			case "fmul":
+				b.NewFMul(x, y).FastMathFlags = flags
+			case "fdiv":
+				b.NewFDiv(x, y).FastMathFlags = flags
+			case "frem":
+				b.NewFRem(x, y).FastMathFlags = flags
+			case "fcmp":
+				b.NewFCmp(enum.FPredOEQ, x, y).FastMathFlags = flags
+			case "select":
+				b.NewSelect(c, x, y).FastMathFlags = flags
+			case "call":
+				b.NewCall(ext, x).FastMathFlags = flags
+			case "phi":
+				nb := f.NewBlock("next")
+				b.NewBr(nb)
+				nb.NewPhi(ir.NewIncoming(x, b)).FastMathFlags = flags
+				b = nb
+			}
+			b.NewRet(nil)
+			text, pp := printGuard(m)
+			r.Eval(1)
+			if pp != "" {
+				r.Violate(fw.Violation{Key: "flagset-print-panic/FastMathFlag/" + kind, What: firstLine(pp)})
+				continue
+			}
+			m2, perr, pmsg := parseGuard("c18-fmf", text)
+			if pmsg != "" || perr != nil {
+				r.Violate(fw.Violation{Key: "flagset-rejected/FastMathFlag/" + kind, Input: text, What: "the printed instruction is not accepted by the parser"})
+				continue
+			}
+			var got []enum.FastMathFlag
+			found := false
+			for _, fn := range m2.Funcs {
+				for _, blk := range fn.Blocks {
+					for _, inst := range blk.Insts {
+						rv := reflect.ValueOf(inst)
+						if rv.Kind() == reflect.Ptr {
+							if fv := rv.Elem().FieldByName("FastMathFlags"); fv.IsValid() && !found {
+								got = fv.Interface().([]enum.FastMathFlag)
+								found = true
+							}
+						}
+					}
+				}
+			}
+			want := map[enum.FastMathFlag]bool{}
+			for _, f := range flags {
+				want[f] = true
+			}
+			have := map[enum.FastMathFlag]bool{}
+			for _, f := range got {
+				have[f] = true
+			}
+			same := found && len(want) == len(have)
+			for f := range want {
+				same = same && have[f]
+			}
+			if !same {
+				r.Violate(fw.Violation{Key: "flagset-members/FastMathFlag/" + kind, Input: text,
+					What: fmt.Sprintf("%s with fast-math flags %v reads back with %v", kind, flags, got)})
+				continue
+			}
+			if len(flags) > 0 {
+				r.Nontrivial(fmt.Sprintf("fmf/%s/%d", kind, sub))
+			}
+		}
+	}
+	r.Tally("flag_sets", "FastMathFlag: all 256 subsets")
 }
